@@ -1,6 +1,6 @@
 (* Model/C16_Codecs.v — a concrete runtime world: CPython's UTF-8, Latin-1, ASCII,
-   UTF-16 (BOM / LE / BE) and UTF-32 (BOM / LE / BE) codecs (encoder + decoder, error policies strict / ignore / replace), its codec
-   name lookup restricted to these nine codecs, and the NFKD/ASCII fold driven by
+   UTF-16 (BOM / LE / BE), UTF-32 (BOM / LE / BE), cp1252 and koi8-r codecs (encoder + decoder, error policies strict / ignore / replace), its codec
+   name lookup restricted to these eleven codecs, and the NFKD/ASCII fold driven by
    the generated table.  Tied to CPython by correspondence (tools/props/C16.py,
    ops enc / dec / lookup / fold).  Definitions only.
 
@@ -10,7 +10,7 @@
    the first error); codec names containing non-ASCII characters. *)
 From Coq Require Import String.
 Require Import OV.Base.Bytes OV.Base.PyInt OV.Base.Str OV.Base.C16_Py.
-Require Import OV.Gen.C16_Aliases OV.Gen.C16_Fold.
+Require Import OV.Gen.C16_Aliases OV.Gen.C16_Fold OV.Gen.C16_Charmaps.
 Open Scope N_scope.
 
 Inductive policy := Strict | Ignore | Replace | UnknownPolicy.
@@ -255,6 +255,33 @@ Definition utf32_bom_dec (p : policy) (bs : bytes) : cres str :=
   | _ => utf32_dec native_le p bs
   end.
 
+(* ---------- single-byte codecs given by a decoding table (cp1252, koi8-r) ----------
+   Decoding: an undefined byte is an error of span 1.  Encoding: the first byte the table maps to the
+   character (the generator checks that this is CPython's encoder and that 'replace' writes '?'). *)
+Definition table_get (tbl : list (option N)) (b : N) : option N := nth (N.to_nat b) tbl None.
+Fixpoint find_index (c : N) (tbl : list (option N)) (i : N) : option N :=
+  match tbl with
+  | [] => None
+  | Some x :: r => if x =? c then Some i else find_index c r (i + 1)
+  | None :: r => find_index c r (i + 1)
+  end.
+Fixpoint charmap_dec (tbl : list (option N)) (p : policy) (bs : bytes) : cres str :=
+  match bs with
+  | [] => COk []
+  | b :: t => match table_get tbl b with
+              | Some c => cmap (cons c) (charmap_dec tbl p t)
+              | None => on_dec_error p (charmap_dec tbl p t)
+              end
+  end.
+Fixpoint charmap_enc (tbl : list (option N)) (p : policy) (s : str) : cres bytes :=
+  match s with
+  | [] => COk []
+  | c :: t => match find_index c tbl 0 with
+              | Some b => cmap (cons b) (charmap_enc tbl p t)
+              | None => on_enc_error p (charmap_enc tbl p t)
+              end
+  end.
+
 Definition enc3 (c : codec_id) (s : str) (errors : str) : cres bytes :=
   let p := policy_of errors in
   match c with
@@ -267,6 +294,8 @@ Definition enc3 (c : codec_id) (s : str) (errors : str) : cres bytes :=
   | CUtf32 => utf32_bom_enc p s
   | CUtf32LE => utf32_enc true p s
   | CUtf32BE => utf32_enc false p s
+  | CCp1252 => charmap_enc cp1252_table p s
+  | CKoi8R => charmap_enc koi8r_table p s
   end.
 Definition dec3 (c : codec_id) (b : bytes) (errors : str) : cres str :=
   let p := policy_of errors in
@@ -280,6 +309,8 @@ Definition dec3 (c : codec_id) (b : bytes) (errors : str) : cres str :=
   | CUtf32 => utf32_bom_dec p b
   | CUtf32LE => utf32_dec true p b
   | CUtf32BE => utf32_dec false p b
+  | CCp1252 => charmap_dec cp1252_table p b
+  | CKoi8R => charmap_dec koi8r_table p b
   end.
 
 (* ---------- codecs.lookup for ASCII names ----------
